@@ -31,7 +31,7 @@ Skip == UNCHANGED <<vars, tid, dq, broken>>
 TTarget == /\ IsEvent("Target")
            /\ Env("fresh", px.phase = "start")
            /\ tgt' = [k |-> Rec.tgt[1], s |-> Rec.tgt[2], r |-> Rec.tgt[3]]
-           /\ UNCHANGED <<px, fromQ, toQ, mf, hb, ap, handled, fixed, out, calls, tid, dq, broken>>
+           /\ UNCHANGED <<px, fromQ, toQ, mf, hb, ap, handled, fixed, out, calls, closed, tid, dq, broken>>
 TReset == /\ IsEvent("Reset")
           /\ UNCHANGED tgt
           /\ px' = [phase |-> "start", icpt |-> FALSE, meta |-> Meta0]
@@ -39,7 +39,7 @@ TReset == /\ IsEvent("Reset")
           /\ hb' = [e \in Events |-> 0] /\ ap' = [e \in Events |-> 0] /\ handled' = {}
           /\ fixed' = [browser |-> FALSE, rinj |-> FALSE, preempted |-> FALSE]
           /\ out' = [n |-> "init", exc |-> FALSE, res |-> "ok"]
-          /\ calls' = 0 /\ dq' = <<>> /\ tid' = Rec.tid /\ broken' = FALSE
+          /\ calls' = 0 /\ closed' = {} /\ dq' = <<>> /\ tid' = Rec.tid /\ broken' = FALSE
 \* {"ev":"InterceptRequest","browser":b,"hdr":b,"q":[event type, E(meta of the queued state)]}
 TIReq == /\ IsEvent("InterceptRequest")
          /\ IF broken THEN Skip ELSE
@@ -100,7 +100,15 @@ TApply == /\ IsEvent("Apply")
                    /\ broken' = ~(c1 /\ c2 /\ c3 /\ c4)
              /\ dq' = IF Len(dq) > 0 THEN Tail(dq) ELSE dq
              /\ UNCHANGED tid
-TNext == TReset \/ TTarget \/ TIReq \/ TIResp \/ THandle \/ TCall \/ TApply
+\* {"ev":"SessionCloses","s":n,"mf":[taken,resumed,E(meta)] or null}: at any time, for every flow of the world
+TClose == /\ IsEvent("SessionCloses")
+          /\ IF broken THEN Skip ELSE
+             /\ Env("open", Rec.s \notin closed)
+             /\ CloseBody(Rec.s)
+             /\ LET c == mf.ev = "none" \/ Rec.mf = <<mf'.taken, mf'.resumed, E(mf'.meta)>> IN
+                  Chk("SessionCloses.flow", c) /\ broken' = ~c
+             /\ UNCHANGED <<tid, dq>>
+TNext == TReset \/ TTarget \/ TIReq \/ TIResp \/ THandle \/ TCall \/ TApply \/ TClose
 TraceSpec == TInit /\ [][TNext]_tvars
 TraceAccepted == PrintT("TRACE_REACHED " \o ToString(TLCGet("stats").diameter - 1) \o " OF " \o ToString(Len(TraceLog)))
 ====
